@@ -214,6 +214,12 @@ def livepatch(old, new, modname=None,
             # Ignore objects that have been imported from another module.
             # Just update their references.
             return new
+        old_modname = _get_definition_module(old)
+        if modname and old_modname and old_modname != modname:
+            # Never modify an object that belongs to another module, e.g. a
+            # function that used to be imported from elsewhere and is now
+            # defined here under the same name.
+            return new
         if assume_type is not None:
             use_type = assume_type
         else:
